@@ -254,3 +254,215 @@ Theorem c17_ghost_event : forall st id rq st' name g client off,
     exists seg p pr, In (NForward (Some (seg, off)) p pr)
                         (skipn (length (link_out st (o_link o))) (link_out st' (o_link o))).
 Proof. exact fdd_ghost_event. Qed.
+
+(** C17, completeness clause: "once publishers have stopped, all members have acknowledged and
+    the broker is idle, every message has been forwarded to some member while the group stayed
+    non-empty" (invariant [GroupParkInv], membership invariant [MemInv]; proofs:
+    Router/GroupWake*.v).  [pos_of l c] is the position a read of log [l] from cursor [c] starts
+    at (the cursor's offset, or the oldest retained entry if its segment was evicted). *)
+From Rumqtt Require Import Router.Inv Router.NoPanic Router.NoPanicDevInv Router.ExactLoc3 Router.WindowFrame.
+From Rumqtt Require Import Router.SharedRunStep Router.Wake Router.WakePark Router.WakeCor Router.WakeExamples.
+From Rumqtt Require Import Router.GroupWake Router.GroupWakeStep Router.GroupWakeIdx Router.GroupWakeMem Router.GroupWakeMem6 Router.GroupWakeThm Router.GroupWakeExamples.
+From Rumqtt Require Import Router.Model Router.RunDefs.
+
+Theorem c17_serving_keeps_group_park_inv : forall st id rq st' rq' cs,
+  CInv st -> Bounded st -> 1 <= cf_max_outgoing (r_cfg st) -> ParkInv st -> GroupParkInv st ->
+  RqOk (r_datalog st) rq ->
+  forward_device_data st id rq = Ok (st', rq', cs) ->
+  GroupParkInv st' /\
+  (cs = FilterCaughtup ->
+   forall name g d, dr_group rq' = Some name -> al_get str_eqb name (r_groups st') = Some g ->
+     nget (r_datalog st') (dr_idx rq') = Some d -> pos_of (d_log d) (g_cursor g) = end_of (d_log d)).
+Proof. exact fdd_gpark. Qed.
+
+Theorem c17_group_park_inv_step : forall st o st' out gh,
+  CInv st -> Bounded st -> 1 <= cf_max_outgoing (r_cfg st) -> ParkInv st -> GK st -> GroupParkInv st ->
+  step_g st o = Ok (st', out, gh) -> gh_rewind gh = false -> connect_ok st o ->
+  GK st' /\ GroupParkInv st'.
+Proof. exact step_gpark. Qed.
+
+Theorem c17_group_park_inv_reachable : forall cfg st0 ops st,
+  cfg_ok cfg -> 1 <= cf_max_outgoing cfg < B62 -> init cfg = Ok st0 -> ops_wf ops ->
+  run st0 ops = Ok st -> Bounded st -> no_rewind_b st0 ops = true ->
+  forall name g i d id rq,
+    al_get str_eqb name (r_groups st) = Some g ->
+    nget (r_datalog st) i = Some d -> In (id, rq) (d_waiters d) -> dr_group rq = Some name ->
+    pos_of (d_log d) (g_cursor g) = end_of (d_log d).
+Proof. exact group_park_inv_reachable. Qed.
+
+Theorem c17_group_park_offset : forall cfg st0 ops st,
+  cfg_ok cfg -> 1 <= cf_max_outgoing cfg < B62 -> init cfg = Ok st0 -> ops_wf ops ->
+  run st0 ops = Ok st -> Bounded st -> no_rewind_b st0 ops = true ->
+  forall name g i d id rq,
+    al_get str_eqb name (r_groups st) = Some g ->
+    nget (r_datalog st) i = Some d -> In (id, rq) (d_waiters d) -> dr_group rq = Some name ->
+    stale (d_log d) (g_cursor g) = false -> snd (g_cursor g) = end_of (d_log d).
+Proof. exact group_park_offset. Qed.
+
+Theorem c17_members_inv_reachable : forall cfg st0 ops st,
+  cfg_ok cfg -> init cfg = Ok st0 -> ops_wf ops -> run st0 ops = Ok st -> MemInv st.
+Proof. exact mem_reachable. Qed.
+
+Theorem c17_no_parked_orphan : forall st, MemInv st -> NoOrphanW st.
+Proof. exact MemInv_NoOrphanW. Qed.
+
+Theorem c17_member_request : forall cfg st0 ops st,
+  cfg_ok cfg -> init cfg = Ok st0 -> ops_wf ops -> run st0 ops = Ok st ->
+  forall name c, gmem st name c ->
+  exists id t, cli st id = Some c /\ slab_get (r_trackers st) id = Some t /\
+    ((exists rq, In rq (tr_reqs t) /\ dr_filter rq = gpath name /\ dr_group rq = Some name) \/
+     (exists i d rq, nget (r_datalog st) i = Some d /\ In (id, rq) (d_waiters d) /\
+                     dr_filter rq = gpath name /\ dr_group rq = Some name)).
+Proof. exact member_request. Qed.
+
+Theorem c17_complete_quiescent : forall cfg st0 ops st,
+  cfg_ok cfg -> 1 <= cf_max_outgoing cfg < B62 -> init cfg = Ok st0 -> ops_wf ops ->
+  run st0 ops = Ok st -> Bounded st -> no_rewind_b st0 ops = true ->
+  quiescent st (owed_run st0 [] ops) ->
+  forall name g, al_get str_eqb name (r_groups st) = Some g ->
+    exists d, glog (r_datalog st) name = Some d /\ pos_of (d_log d) (g_cursor g) = end_of (d_log d).
+Proof. exact complete_quiescent. Qed.
+
+Theorem c17_turn_holder_runnable : forall cfg st0 ops st,
+  cfg_ok cfg -> 1 <= cf_max_outgoing cfg < B62 -> init cfg = Ok st0 -> ops_wf ops ->
+  run st0 ops = Ok st -> Bounded st -> no_rewind_b st0 ops = true ->
+  forall name g d c,
+    al_get str_eqb name (r_groups st) = Some g -> glog (r_datalog st) name = Some d ->
+    pos_of (d_log d) (g_cursor g) <> end_of (d_log d) ->
+    current_client g = Some c ->
+    exists id t o rq,
+      cli st id = Some c /\ slab_get (r_trackers st) id = Some t /\ slab_get (r_obufs st) id = Some o /\
+      In rq (tr_reqs t) /\ dr_filter rq = gpath name /\ dr_group rq = Some name /\
+      ((tr_status t = Ready /\ In id (r_ready st)) \/
+       (tr_status t = Paused InflightFull /\ o_inflight o <> []) \/
+       (tr_status t = Paused Busy /\
+        (In NUnschedule (WindowFrame.out_of st (o_link o)) \/ In (o_link o) (owed_run st0 [] ops)))).
+Proof. exact turn_holder_runnable. Qed.
+
+Theorem c17_rewind_strands_messages :
+  exists st0 ops st g d id rq,
+    cfg_ok C15Example.cfg0 /\ 1 <= cf_max_outgoing C15Example.cfg0 < B62 /\ init C15Example.cfg0 = Ok st0 /\
+    ops_wf ops /\ run st0 ops = Ok st /\
+    Bounded st /\ quiescent st (owed_run st0 [] ops) /\ rejoin_fresh_b st0 ops = true /\
+    no_rewind_b st0 ops = false /\
+    al_get str_eqb C17WakeExample.key (r_groups st) = Some g /\ g_clients g <> [] /\
+    glog (r_datalog st) C17WakeExample.key = Some d /\
+    In (id, rq) (d_waiters d) /\ dr_group rq = Some C17WakeExample.key /\ cli st id = current_client g /\
+    pos_of (d_log d) (g_cursor g) = 0 /\ end_of (d_log d) = 2.
+Proof. exact C17WakeExample.rewind_strands_messages. Qed.
+
+Theorem c17_strand_state :
+  match init C15Example.cfg0 with
+  | Ok st0 =>
+      match run st0 C17WakeExample.strand_ops with
+      | Ok st =>
+          C17WakeExample.gview st =
+            [(C17WakeExample.key, [[98]], 0, (0, 0), Some [98],
+              Some (0, 2, [(1, (0, 2), Some C17WakeExample.key)]))] /\
+          C17WakeExample.tview st = [None; Some (Paused Caughtup, []); Some (Paused Caughtup, [])] /\
+          forallb (fun x : list oracle * rop => op_wf_b (snd x)) C17WakeExample.strand_ops = true /\
+          bounded_b st = true /\ quiescent_b st (owed_run st0 [] C17WakeExample.strand_ops) = true /\
+          rejoin_fresh_b st0 C17WakeExample.strand_ops = true /\
+          no_rejoin_create_b st0 C17WakeExample.strand_ops = true /\
+          no_rewind_b st0 C17WakeExample.strand_ops = false
+      | _ => False
+      end
+  | _ => False
+  end.
+Proof. exact C17WakeExample.strand_state. Qed.
+
+Theorem c17_strand_then_publish :
+  match init C15Example.cfg0 with
+  | Ok st0 =>
+      match run st0 (C17WakeExample.strand_ops ++ C17WakeExample.more_ops) with
+      | Ok st =>
+          C17WakeExample.gview st =
+            [(C17WakeExample.key, [[98]], 0, (0, 3), Some [98],
+              Some (3, 3, [(1, (0, 3), Some C17WakeExample.key)]))] /\
+          gfwd st0 (C17WakeExample.strand_ops ++ C17WakeExample.more_ops) =
+            [(C17WakeExample.key, [97], 0); (C17WakeExample.key, [98], 1); (C17WakeExample.key, [98], 0);
+             (C17WakeExample.key, [98], 1); (C17WakeExample.key, [98], 2)]
+      | _ => False
+      end
+  | _ => False
+  end.
+Proof. exact C17WakeExample.strand_then_publish. Qed.
+
+Theorem c17_quiet_state :
+  match init C15Example.cfg0 with
+  | Ok st0 =>
+      match run st0 C17WakeExample.quiet_ops with
+      | Ok st =>
+          C17WakeExample.gview st =
+            [(C17WakeExample.key, [[97]; [98]], 1, (0, 1), Some [98],
+              Some (1, 1, [(0, (0, 1), Some C17WakeExample.key); (1, (0, 1), Some C17WakeExample.key)]))] /\
+          C17WakeExample.tview st =
+            [Some (Paused Caughtup, []); Some (Paused Caughtup, []); Some (Paused Caughtup, [])] /\
+          forallb (fun x : list oracle * rop => op_wf_b (snd x)) C17WakeExample.quiet_ops = true /\
+          bounded_b st = true /\ no_rewind_b st0 C17WakeExample.quiet_ops = true /\
+          quiescent_b st (owed_run st0 [] C17WakeExample.quiet_ops) = true
+      | _ => False
+      end
+  | _ => False
+  end.
+Proof. exact C17WakeExample.quiet_state. Qed.
+
+Theorem c17_complete_quiescent_applies :
+  let st := C17WakeExample.gw_st C17WakeExample.quiet_ops in
+  run C17WakeExample.gw_st0 C17WakeExample.quiet_ops = Ok st /\
+  exists g d,
+    al_get str_eqb C17WakeExample.key (r_groups st) = Some g /\ g_clients g = [[97]; [98]] /\
+    glog (r_datalog st) C17WakeExample.key = Some d /\ pos_of (d_log d) (g_cursor g) = end_of (d_log d).
+Proof. exact C17WakeExample.complete_quiescent_applies. Qed.
+
+Theorem c17_pending_state :
+  match init C15Example.cfg0 with
+  | Ok st0 =>
+      match run st0 C17WakeExample.pending_ops with
+      | Ok st =>
+          C17WakeExample.gview st =
+            [(C17WakeExample.key, [[97]; [98]], 0, (0, 0), Some [97], Some (0, 1, []))] /\
+          C17WakeExample.tview st =
+            [Some (Ready, [Some C17WakeExample.key]); Some (Ready, [Some C17WakeExample.key]); Some (Ready, [])] /\
+          r_ready st = [2; 0; 1] /\
+          forallb (fun x : list oracle * rop => op_wf_b (snd x)) C17WakeExample.pending_ops = true /\
+          bounded_b st = true /\ no_rewind_b st0 C17WakeExample.pending_ops = true
+      | _ => False
+      end
+  | _ => False
+  end.
+Proof. exact C17WakeExample.pending_state. Qed.
+
+Theorem c17_turn_holder_applies :
+  let st := C17WakeExample.gw_st C17WakeExample.pending_ops in
+  run C17WakeExample.gw_st0 C17WakeExample.pending_ops = Ok st /\
+  exists id t o rq,
+    cli st id = Some [97] /\ slab_get (r_trackers st) id = Some t /\ slab_get (r_obufs st) id = Some o /\
+    In rq (tr_reqs t) /\ dr_filter rq = gpath C17WakeExample.key /\ dr_group rq = Some C17WakeExample.key /\
+    ((tr_status t = Ready /\ In id (r_ready st)) \/
+     (tr_status t = Paused InflightFull /\ o_inflight o <> []) \/
+     (tr_status t = Paused Busy /\
+      (In NUnschedule (WindowFrame.out_of st (o_link o)) \/
+       In (o_link o) (owed_run C17WakeExample.gw_st0 [] C17WakeExample.pending_ops)))).
+Proof. exact C17WakeExample.turn_holder_applies. Qed.
+
+Theorem c17_turn_holder_exists : forall cfg st name g,
+  reachable cfg st -> al_get str_eqb name (r_groups st) = Some g ->
+  exists c, current_client g = Some c /\ In c (g_clients g).
+Proof. exact turn_holder_exists. Qed.
+
+Theorem c17_backlog_is_served : forall cfg st0 ops st,
+  cfg_ok cfg -> 1 <= cf_max_outgoing cfg < B62 -> init cfg = Ok st0 -> ops_wf ops ->
+  run st0 ops = Ok st -> Bounded st -> no_rewind_b st0 ops = true ->
+  forall name g d,
+    al_get str_eqb name (r_groups st) = Some g -> glog (r_datalog st) name = Some d ->
+    pos_of (d_log d) (g_cursor g) <> end_of (d_log d) ->
+    exists c id t o rq,
+      current_client g = Some c /\ In c (g_clients g) /\
+      cli st id = Some c /\ slab_get (r_trackers st) id = Some t /\ slab_get (r_obufs st) id = Some o /\
+      In rq (tr_reqs t) /\ dr_filter rq = gpath name /\ dr_group rq = Some name /\
+      ((tr_status t = Ready /\ In id (r_ready st)) \/
+       (tr_status t = Paused InflightFull /\ o_inflight o <> []) \/
+       (tr_status t = Paused Busy /\
+        (In NUnschedule (WindowFrame.out_of st (o_link o)) \/ In (o_link o) (owed_run st0 [] ops)))).
+Proof. exact backlog_is_served. Qed.
